@@ -26,6 +26,9 @@ pub fn rerun_hx(cfg: &HxCfg, history: &[Op], at: &str, aux: Option<&Vec<Op>>) ->
         let mut m = Model::new(cfg.cap, cfg.n, cfg.track_returned);
         let last = history.len().saturating_sub(1);
         for (i, op) in history.iter().enumerate() {
+            if at == "transition" && i == last {
+                crate::dirty::before_last_step();
+            }
             let (_, f) = hx::step(&cfg.labels, &mut g, &mut m, op);
             if at == "transition" && i == last {
                 let mut f = f;
@@ -41,6 +44,7 @@ pub fn rerun_hx(cfg: &HxCfg, history: &[Op], at: &str, aux: Option<&Vec<Op>>) ->
             }
         }
         let mut fs = vec![];
+        crate::dirty::before_last_step();
         if cfg.probes.drain {
             fs.extend(drain_probe(&g, &m, false));
             fs.extend(drain_probe(&g, &m, true));
@@ -117,13 +121,24 @@ pub fn replay_file(path: &str) -> i32 {
     }
     // some cases are run right after calls that fail on unrelated objects (harness/src/dirty.rs):
     // a failure that needs that to show (hidden state in the thread or the process) reproduces now
-    println!("(once more, this time right after failing calls on unrelated graphs and values in the same thread)");
-    crate::dirty::failing_calls();
-    let rc = replay_file_once(path);
-    if rc == 1 {
-        println!("NOTE: the failure shows only when failing calls on UNRELATED objects came before it in the same thread: some state outside the graph survives a failed call");
+    for (k, what) in [(1u8, "calls that FAIL"), (2u8, "complete, successful calls")] {
+        println!("(once more, this time with {what} on unrelated graphs and values in the same thread right before the last step)");
+        crate::dirty::set_before_last(k);
+        if k == 1 {
+            crate::dirty::failing_calls();
+        } else {
+            crate::dirty::foreign_calls();
+        }
+        let rc = replay_file_once(path);
+        crate::dirty::set_before_last(0);
+        if rc != 0 {
+            if rc == 1 {
+                println!("NOTE: the failure shows only when {what} on UNRELATED objects came before it in the same thread: some state outside the graph or value leaks from one object to another");
+            }
+            return rc;
+        }
     }
-    rc
+    0
 }
 
 fn replay_file_once(path: &str) -> i32 {
